@@ -55,8 +55,8 @@ func (a *InboundTopicAliases) Set(id uint16, topic string) string {
 		return topic // ?
 	}
 
-	if existing, ok := a.internal[id]; ok && topic == "" {
-		return existing
+	if topic == "" {
+		return a.internal[id] // the topic bound earlier, or "" when the alias is unknown: nothing is bound
 	}
 
 	a.internal[id] = topic
